@@ -58,7 +58,8 @@ FAMILIES = {
         ("types3", fam(N=3, TypSet=("base", "sub"), GrpSet=(1, 2), LabelSet=("none", "req", "g1"), MaxAdds=1,
                        AskSet=("basic",))),
         ("help3", fam(N=3, LabelSet=ALL_LABELS, AskSet=("help",))),
-        ("specs4", fam(N=4, MinN=3, KindSet=("comp", "ds", "point"), LabelSet=FIVE, MaxAdds=1, AskSet=("specs",))),
+        ("specs4", fam(N=4, MinN=3, KindSet=("comp", "point"), LabelSet=("none", "req", "g1", "g2"), AskSet=("specs",))),
+        ("specs3ds", fam(N=3, KindSet=("comp", "ds", "point"), LabelSet=FIVE, MaxAdds=1, AskSet=("specs",))),
         ("raw3", fam(Fam="raw", N=3)),
         ("raw4", fam(Fam="raw", N=4)),
         ("sim8", fam(N=8, MinN=4, KindSet=("comp", "comp", "ds", "point"), TypSet=("base", "sub"), GrpSet=(1, 2),
